@@ -56,6 +56,26 @@ pub struct Scripted {
     idx: usize,
     off: usize,
     pub log: Arc<Mutex<Log>>,
+    /// the transport accepts at most this many bytes per write call (0 = everything offered)
+    max_write: usize,
+}
+
+thread_local! {
+    static SHORT_WRITE: std::cell::Cell<usize> = const { std::cell::Cell::new(0) };
+}
+
+/// While the guard lives, scripted transports created on this thread accept at most `n` bytes per write (0 = all).
+pub struct ShortWriteGuard;
+
+pub fn short_writes(n: usize) -> ShortWriteGuard {
+    SHORT_WRITE.with(|c| c.set(n));
+    ShortWriteGuard
+}
+
+impl Drop for ShortWriteGuard {
+    fn drop(&mut self) {
+        SHORT_WRITE.with(|c| c.set(0));
+    }
 }
 
 impl Scripted {
@@ -67,6 +87,7 @@ impl Scripted {
                 idx: 0,
                 off: 0,
                 log: log.clone(),
+                max_write: SHORT_WRITE.with(|c| c.get()),
             },
             log,
         )
@@ -183,9 +204,10 @@ impl Write for Scripted {
     fn write(&mut self, buf: &[u8]) -> io::Result<usize> {
         let mut log = self.log.lock().unwrap();
         let served = log.served;
-        log.writes.push((served, buf.len()));
-        log.written.extend_from_slice(buf);
-        Ok(buf.len())
+        let n = if self.max_write > 0 { buf.len().min(self.max_write) } else { buf.len() };
+        log.writes.push((served, n));
+        log.written.extend_from_slice(&buf[..n]);
+        Ok(n)
     }
     fn flush(&mut self) -> io::Result<()> {
         self.log.lock().unwrap().flushes += 1;
